@@ -158,7 +158,7 @@ def c10(chk, g):
     pref = None
     m = g["module"]
     from .props.c18 import read_hashes_conf
-    enabled = set(x for x in g["info"]["params"]["hashes_enabled"].strip(",").split(",") if x)
+    enabled = set(g["info"]["enabled"])
     for c in read_hashes_conf():
         if c["name"] in enabled and "DEFAULT" in c["flags"]:
             pref = c["prefix"]
